@@ -490,6 +490,17 @@ func runC07(c *eng.Ctx) {
 			)
 		}
 	}
+	// the SCOPED side is the multi-output registration: the only scoped Add call of the set loses
+	// one output to Remove, a singleton / transient depends on the output that stays
+	for _, life := range []godi.Lifetime{godi.Singleton, godi.Transient} {
+		directed = append(directed,
+			&Spec{Regs: []Reg{mkReg("MR_K0K1", godi.Scoped), rm("K0", ""), mkReg("PosA_2_2", life)}},
+			&Spec{Regs: []Reg{mkReg("OutP_K0K1", godi.Scoped), rm("K0", ""), mkReg("PosA_2_2", life)}},
+			&Spec{Regs: []Reg{mkReg("OutP_K0K1", godi.Scoped), rm("K1", ""), mkReg("PosA_2_1", life)}},
+			&Spec{Regs: []Reg{mkReg("MR_S1S2S5e", godi.Scoped), rm("S1", ""), rm("S5", ""), mkReg("SV_3_12", life), mkReg("Leaf_S0_a", godi.Singleton)}},
+			&Spec{Regs: []Reg{mkReg("Leaf_K1_a", godi.Scoped, withAs("IK1", "IA")), rm("IA", ""), mkReg("InU_0_2_Iface", life)}},
+		)
+	}
 	// the set that matters is the final one: a Build in the middle must not make a difference
 	for _, life := range []godi.Lifetime{godi.Singleton, godi.Transient} {
 		directed = append(directed,
